@@ -28,6 +28,7 @@ import (
 	"verif/fwd"
 	"verif/media"
 	"verif/seqx"
+	"verif/vrt"
 )
 
 type shape struct {
@@ -79,6 +80,10 @@ type world struct {
 	lastOut  int // source index of the last forwarded frame, -1
 	outcome  string
 	hist     []op
+	// the last two forwarded packets: source buffer and the payload that was
+	// sent (a receiver may ask for them again: gotNACK re-runs Write on the
+	// cached source packet)
+	sent [][2][]byte
 }
 
 func codecOf(s shape) webrtc.RTPCodecParameters {
@@ -119,6 +124,10 @@ func (w *world) Ops() []seqx.Op {
 	// while the picture-id shift does not
 	if canHi && w.sh.Codec == "vp8" && w.sh.M && w.frames == 1 && w.cfg.CSRC == 0 && !w.cfg.Ext && (w.cfg.PidStart == 0 || !core.Quick()) {
 		ops = append(ops, op{N: -16384, Tid: 1})
+	}
+	// a retransmission of the last / last but one forwarded packet
+	for k := range w.sent {
+		ops = append(ops, op{N: 0, Tid: k})
 	}
 	for n := 1; n <= maxN; n++ {
 		ops = append(ops, op{N: n, Tid: 0})
@@ -204,6 +213,32 @@ func (w *world) Apply(x seqx.Op) *core.Violation {
 			}
 		}
 		w.hist = w.hist[:0]
+		return nil
+	}
+	if o.N == 0 {
+		if o.Tid >= len(w.sent) {
+			return nil
+		}
+		e := w.sent[len(w.sent)-1-o.Tid]
+		w.hist = append(w.hist, o)
+		orig := append([]byte(nil), e[0]...)
+		w.w.Rec.Take()
+		_, err := w.w.Down.Write(e[0])
+		out := w.w.Rec.Take()
+		if err != nil {
+			return viol("write-error/"+w.sh.Name, "retransmission: Write failed: "+err.Error())
+		}
+		if !bytes.Equal(orig, e[0]) {
+			return viol("source-buffer-modified/"+w.sh.Name, "retransmission: Write modified the caller's (cached) buffer")
+		}
+		w.outcome = fmt.Sprintf("resend/%d", len(out))
+		if len(out) == 1 && !bytes.Equal(out[0].Payload, e[1]) {
+			kind := "payload-changed"
+			if d := firstDiff(out[0].Payload, e[1]); w.sh.Codec == "vp8" && w.sh.I && d >= 2 && d <= 3 {
+				kind = "picture-id-wrong"
+			}
+			return viol(kind+"/"+w.sh.Name+"/retransmission", "a packet written again (as gotNACK does for a retransmission) left with a different payload than the first time")
+		}
 		return nil
 	}
 	w.hist = append(w.hist, o)
@@ -306,6 +341,10 @@ func (w *world) Apply(x seqx.Op) *core.Violation {
 			}
 			return viol(kind+"/"+w.sh.Name, fmt.Sprintf("%s: payload byte %d differs from the expected rewrite%s", sp.descr, d, extra))
 		}
+		w.sent = append(w.sent, [2][]byte{sp.buf, append([]byte(nil), got.Payload...)})
+		if len(w.sent) > 2 {
+			w.sent = w.sent[1:]
+		}
 		// the parser galene uses must agree with the packet being the same frame
 		if _, err := gcodecs.PacketFlags(codec, orig); err != nil {
 			panic("galene cannot parse the harness packet: " + err.Error())
@@ -337,7 +376,7 @@ func firstDiff(a, b []byte) int {
 func (w *world) Canon() string {
 	var b strings.Builder
 	b.WriteString(w.w.Down.MapState())
-	fmt.Fprintf(&b, "#%d/%d/%d", w.frames, w.withheld, w.seq)
+	fmt.Fprintf(&b, "#%d/%d/%d/%d", w.frames, w.withheld, w.seq, len(w.sent))
 	return b.String()
 }
 
@@ -375,14 +414,14 @@ func configs() []config {
 }
 
 func cfgFor(c config) seqx.Config {
-	return seqx.Config{Name: c.String(), Fresh: fresh(c), MaxDepth: core.Pick(4, 6), Parallel: 1}
+	return seqx.Config{Name: c.String(), Fresh: fresh(c), MaxDepth: core.Pick(5, 7), Parallel: 1}
 }
 
 func main() {
 	t0 := time.Now()
 	o := core.ParseFlags(90, 1200)
 	res := &core.Result{Property: "C02", Tier: o.Tier,
-		Technique: "explicit-state BFS over whole-frame arrival/withhold histories through the real rtpDownTrack.Write for every descriptor-shape configuration; output compared with the source packet using pion's independent parsers"}
+		Technique: "explicit-state BFS over whole-frame arrival/withhold histories through the real rtpDownTrack.Write for every descriptor-shape configuration; output compared with the source packet using pion's independent parsers; preemption-bounded schedule enumeration of concurrent rewriting Writes on down tracks sharing the buffer pool"}
 	if o.Replay != "" {
 		replay(o.Replay)
 		return
@@ -392,10 +431,10 @@ func main() {
 		res.Assume("layer state pinned (tid=0, vp9 sid per configuration) so a frame is withheld exactly when its TID is 1 (or its SID is above the selection); arrival is in order, as the property's quantifier states")
 		core.Finish(res, t0)
 	}
-	agg := core.Sub{Name: "write-vs-source", Exhaustive: true, Bound: fmt.Sprintf("frames<=%d x %d configurations", core.Pick(4, 6), len(configs()))}
+	agg := core.Sub{Name: "write-vs-source", Exhaustive: true, Bound: fmt.Sprintf("operations (frames and retransmissions)<=%d x %d configurations", core.Pick(5, 7), len(configs()))}
 	var outc core.Outcomes
 	for i, c := range configs() {
-		if i%o.Shards != o.Shard {
+		if i%o.Shards != o.Shard || !core.Want("write-vs-source") {
 			continue
 		}
 		s := seqx.Explore(cfgFor(c), res)
@@ -411,7 +450,12 @@ func main() {
 		}
 		outc.Add(c.String())
 	}
-	res.AddSub(agg)
+	if core.Want("write-vs-source") {
+		res.AddSub(agg)
+	}
+	if core.Want("conc") {
+		runConcurrent(res, o.Shard, o.Shards)
+	}
 	core.Finish(res, t0)
 }
 
@@ -423,12 +467,30 @@ func replay(path string) {
 	}
 	var a struct {
 		Replay struct {
-			Config string `json:"config"`
-			Ops    []op   `json:"ops"`
+			Config  string `json:"config"`
+			Ops     []op   `json:"ops"`
+			Program string `json:"program"`
+			Choices []int  `json:"choices"`
 		} `json:"replay"`
 	}
 	if err := json.Unmarshal(data, &a); err != nil {
 		fmt.Println(err)
+		os.Exit(2)
+	}
+	if a.Replay.Program != "" {
+		fwd.Init()
+		for _, p := range concPrograms() {
+			if p.Name == a.Replay.Program {
+				_, out, v := vrt.ReplayChoices(p, a.Replay.Choices)
+				if v != nil {
+					fmt.Printf("VIOLATION property=C02 replay=%s\n  signature: %s\n  %s\n", path, v.Signature, v.What)
+					os.Exit(1)
+				}
+				fmt.Println("replay: no violation; outcome", out)
+				return
+			}
+		}
+		fmt.Println("unknown program")
 		os.Exit(2)
 	}
 	for _, c := range configs() {
